@@ -154,9 +154,24 @@ def gen_ops(book, rng, n, p_set=0.4):
             v = rng.choice([x for x in twins[last[t]] if type(x) is not type(last[t])])
         last[t] = v
         return t, v, style()
+    def bad_address():
+        # what handle_cell rejects: a sheet title that does not exist, column letters that are none, a row that is no number / below 1
+        k = rng.randrange(5)
+        s = rng.randrange(book.ns)
+        return [('No such sheet', 0, 0), ('No such sheet', 'A', '1'), (TITLES[s], 'A1', '1'), (TITLES[s], 'B', '0'), (TITLES[s], 'c', 'x')][k]
     for _ in range(n):
         k = rng.random()
-        if k < p_set:
+        if k < p_set * 0.12:
+            # a batch that is REJECTED: valid cells (now and then far outside the used range), then an address that does not resolve, then perhaps more
+            good = [write() for _ in range(rng.randint(0, 3))]
+            if rng.random() < 0.5:
+                s0 = rng.randrange(book.ns)
+                good.append(((s0, book.w[s0] + rng.randint(1, 4), book.h[s0] + rng.randint(1, 4)), 77, 'num'))
+            for t, _, _ in good:
+                last.pop(t, None)
+            pos = rng.randint(0, len(good)) if rng.random() < 0.4 else len(good)
+            ops.append(('rej', good[:pos], bad_address(), good[pos:]))
+        elif k < p_set:
             # an empty batch now and then: it changes nothing and, in particular, does not cancel an earlier batch that has not been replayed yet
             ops.append(('set', [write() for _ in range(rng.randint(1, 4))] if rng.random() < 0.85 else []))
         elif k < p_set + (1 - p_set) * 0.55:
@@ -192,6 +207,8 @@ def ops_request(ops):
             parts += ['set', str(len(op[1]))]
             for (s, c, r), v, _ in op[1]:
                 parts += [str(s), str(c), str(r), 'B' if v is None else core.enc(v)]       # an override without a value makes the cell blank
+        elif op[0] == 'rej':
+            parts += ['rej']
         elif op[0] == 'get':
             parts += ['get'] + [str(x) for x in op[1]]
         elif op[0] == 'gets':
@@ -240,6 +257,10 @@ def run_real(cls, ops, observer=None):
             if op[0] == 'set':
                 ex.set_cells([mk_cell(Cell, t, st, v) for t, v, st in op[1]])
                 outs.append('-')
+            elif op[0] == 'rej':
+                batch = [mk_cell(Cell, t, st, v) for t, v, st in op[1]] + [RealCell(op[2][0], op[2][1], op[2][2], 5)] + [mk_cell(Cell, t, st, v) for t, v, st in op[3]]
+                ex.set_cells(batch)
+                outs.append('ACCEPTED')         # the call did not raise
             elif op[0] == 'get':
                 outs.append(core.enc(ex.get_cell(mk_cell(QCell, op[1], op[2])).value))
             elif op[0] == 'gets':
